@@ -14,6 +14,9 @@ RULE = ('enum: every boolean array of length 1..L (L=12 quick, 16 thorough) x ev
         'Oracle: groupby run filter (differential) + direct predicates (same length, no False->True, every maximal '
         'run kept iff len>=k, idempotent). Non-trivial: the array holds a run >= k and a run < k, or a run '
         'touching an edge that is shorter than k. Distinct = distinct (array, k).')
+REGISTER = True
+TECHNIQUE = 'exhaustive enumeration of all boolean arrays up to a length bound x all k, plus Hypothesis-generated long arrays, against a groupby reference model and direct run predicates'
+LEVEL_TEXT = 'Exhaustive for every array of length <= 12 (quick) / <= 16 (thorough) and every min_n_cycles 0..len+1; random structured search beyond (length <= 400, k <= 50). Complete below the bound, sampling above it.'
 ASSUMPTIONS = ['the input is handed over as a fresh copy (the function works in place; in-place-ness is C15 territory)',
                'numpy bool arrays only (the documented input type)']
 TRUSTED = ['numpy', 'itertools.groupby reference run filter']
